@@ -292,6 +292,19 @@ TEXTUAL = [
     ("C04", "cp-mode-dot-contract-overwrites", "tensorly/cp_tensor.py", "        factors[mode] *= factor\n", "        factors[mode] = factor\n"),
     ("C04", "cp-mode-dot-operand-dropped", "tensorly/cp_tensor.py", "        factors[mode] = T.dot(matrix_or_vector, factors[mode])\n\n    if copy:", "        factors[mode] = T.dot(T.transpose(factors[mode]), factors[mode])\n\n    if copy:"),
     ("C04", "tucker-mode-dot-contract-drops-operand", "tensorly/tucker_tensor.py", "        core = mode_dot(core, tl.dot(matrix_or_vector, f), mode=mode)", "        core = mode_dot(core, tl.sum(f, axis=0), mode=mode)"),
+    ("C07", "parafac-gram-without-weights", "tensorly/decomposition/_cp.py", "            pseudo_inverse = (\n                tl.reshape(weights, (-1, 1))\n                * pseudo_inverse\n                * tl.reshape(weights, (1, -1))\n            )\n            mttkrp = unfolding_dot_khatri_rao(tensor, (weights, factors), mode)\n\n            factor = tl.transpose(", "            mttkrp = unfolding_dot_khatri_rao(tensor, (weights, factors), mode)\n\n            factor = tl.transpose("),
+    ("C07", "parafac-gram-over-all-modes", "tensorly/decomposition/_cp.py", "            for i, factor in enumerate(factors):\n                if i != mode:\n                    pseudo_inverse = pseudo_inverse * tl.dot(\n                        tl.conj(tl.transpose(factor)), factor\n                    )\n            pseudo_inverse += Id", "            for i, factor in enumerate(factors):\n                if True:\n                    pseudo_inverse = pseudo_inverse * tl.dot(\n                        tl.conj(tl.transpose(factor)), factor\n                    )\n            pseudo_inverse += Id"),
+    ("C07", "parafac-mttkrp-ignores-weights", "tensorly/decomposition/_cp.py", "            mttkrp = unfolding_dot_khatri_rao(tensor, (weights, factors), mode)\n\n            factor = tl.transpose(", "            mttkrp = unfolding_dot_khatri_rao(tensor, (None, factors), mode)\n\n            factor = tl.transpose("),
+    ("C07", "hals-gram-one-sided-weights", "tensorly/decomposition/_nn_cp.py", "            pseudo_inverse = (\n                tl.reshape(weights, (-1, 1))\n                * pseudo_inverse\n                * tl.reshape(weights, (1, -1))\n            )\n            mttkrp = unfolding_dot_khatri_rao(tensor, (weights, factors), mode)\n\n            if mode in nn_modes:", "            pseudo_inverse = tl.reshape(weights, (-1, 1)) * pseudo_inverse\n            mttkrp = unfolding_dot_khatri_rao(tensor, (weights, factors), mode)\n\n            if mode in nn_modes:"),
+    ("C07", "hals-unconstrained-branch-solves-gram-squared", "tensorly/decomposition/_nn_cp.py", "                factor = tl.solve(tl.transpose(pseudo_inverse), tl.transpose(mttkrp))", "                factor = tl.solve(tl.dot(tl.transpose(pseudo_inverse), pseudo_inverse), tl.transpose(mttkrp))"),
+    ("C07", "tr-als-normal-eq-rhs-without-design", "tensorly/decomposition/_tr_als.py", "                rhs_mat = tl.matmul(design_mat_tr, tensor_unf)\n                sol = tl.solve(gram_mat, rhs_mat)", "                rhs_mat = tensor_unf\n                sol = tl.solve(gram_mat, rhs_mat)"),
+    ("C07", "tr-als-subchain-one-core-short", "tensorly/decomposition/_tr_als.py", "            for j in range(2, n_dim):\n                subchain_tensor = tl.tensordot(\n                    subchain_tensor, tr_decomp[(dim + j) % n_dim], axes=1\n                )\n            tr_idx = (", "            for j in range(3, n_dim):\n                subchain_tensor = tl.tensordot(\n                    subchain_tensor, tr_decomp[(dim + j) % n_dim], axes=1\n                )\n            tr_idx = ("),
+    ("C07", "cp-regressor-rhs-without-design", "tensorly/regression/cp_regression.py", "                        T.solve(inv_term, T.dot(T.transpose(phi), y_reshaped)),\n                        (-1, self.weight_rank),", "                        T.solve(inv_term, y_reshaped),\n                        (-1, self.weight_rank),"),
+    ("C07", "tucker-regressor-design-without-core", "tensorly/regression/tucker_regression.py", "                        T.dot(kronecker(W, skip_matrix=i), T.transpose(unfold(G, i))),", "                        kronecker(W, skip_matrix=i),"),
+    ("C07", "cmtf-matrix-factor-not-solved", "tensorly/decomposition/_cmtf_als.py", "        V = tl.transpose(tl.lstsq(tensor_cp.factors[0], matrix)[0])", "        V = tl.transpose(tl.dot(tl.transpose(tensor_cp.factors[0]), matrix))"),
+    ("C07", "parafac-linesearch-accepts-unconditionally", "tensorly/decomposition/_cp.py", "            if (new_rec_error / new_norm_tensor) < rec_errors[-1]:", "            if True:"),
+    ("C07", "parafac-linesearch-comparison-reversed", "tensorly/decomposition/_cp.py", "            if (new_rec_error / new_norm_tensor) < rec_errors[-1]:", "            if (new_rec_error / new_norm_tensor) > rec_errors[-1]:"),
+    ("C07", "parafac2-linesearch-comparison-reversed", "tensorly/decomposition/_parafac2.py", "        if ls_rec_error < rec_error:", "        if ls_rec_error > rec_error:"),
     ("C03", "cp-ctor-skips-validation", "tensorly/cp_tensor.py", "        shape, rank = _validate_cp_tensor(cp_tensor)\n        weights, factors = cp_tensor\n", "        weights, factors = cp_tensor\n        shape, rank = tuple(f.shape[0] for f in factors), factors[0].shape[1]\n"),
     ("C03", "tt-vec-of-other-family", "tensorly/tt_tensor.py", "    return tl.tensor_to_vec(tt_to_tensor(factors))", "    return tl.tensor_to_vec(tt_to_tensor(factors[::-1]))"),
     ("C03", "tucker-unfolded-wrong-mode", "tensorly/tucker_tensor.py", "        mode,\n    )", "        mode + 1,\n    )"),
@@ -388,6 +401,9 @@ TEXTUAL_TWINS = [
     ("C04", "cp-normalize-commuted-product", "tensorly/cp_tensor.py", "        weights = weights * scales\n        normalized_factors", "        weights = scales * weights\n        normalized_factors"),
     ("C04", "tucker-normalize-scale-first", "tensorly/tucker_tensor.py", "        normalized_factors.append(factor / tl.reshape(scales_non_zero, (1, -1)))", "        unit_factor = factor / tl.reshape(scales_non_zero, (1, -1))\n        normalized_factors.append(unit_factor)"),
     ("C04", "flip-sign-guard-on-receiving-factor-too", "tensorly/cp_tensor.py", "    weight_signs = T.sign(weights)\n", "    weight_signs = T.sign(weights)\n    weight_signs = T.where(weight_signs == 0, T.ones(T.shape(weight_signs), **T.context(weight_signs)), weight_signs)\n"),
+    ("C07", "parafac-gram-weights-commuted", "tensorly/decomposition/_cp.py", "                tl.reshape(weights, (-1, 1))\n                * pseudo_inverse\n                * tl.reshape(weights, (1, -1))\n            )\n            mttkrp = unfolding_dot_khatri_rao(tensor, (weights, factors), mode)\n\n            factor = tl.transpose(", "                pseudo_inverse\n                * tl.reshape(weights, (-1, 1))\n                * tl.reshape(weights, (1, -1))\n            )\n            mttkrp = unfolding_dot_khatri_rao(tensor, (weights, factors), mode)\n\n            factor = tl.transpose("),
+    ("C07", "parafac-linesearch-guard-flipped-operands", "tensorly/decomposition/_cp.py", "            if (new_rec_error / new_norm_tensor) < rec_errors[-1]:", "            if rec_errors[-1] > (new_rec_error / new_norm_tensor):"),
+    ("C07", "tr-als-normal-eq-named-transpose", "tensorly/decomposition/_tr_als.py", "                rhs_mat = tl.matmul(design_mat_tr, tensor_unf)", "                rhs_mat = tl.dot(design_mat_tr, tensor_unf)"),
     ("C01", "partial-fold-del-by-position", "tensorly/base.py", "    mode_dim = transposed_shape.pop(skip_begin + mode)", "    mode_dim = transposed_shape.pop(skip_begin + mode)\n    _n_axes = len(transposed_shape)"),
 ]
 
